@@ -486,8 +486,26 @@ int dup(int fd) {
 
 /* ---- fd based reads and writes ------------------------------------------------------------ */
 
-static int fd_still_points_to(int fd, const char *path) {
-    char link[64], cur[8192];
+/* lexical normalisation: "/./" -> "/", "//" -> "/", trailing "/." dropped (".." is left alone) */
+static void lexnorm(const char *src, char *dst, size_t n) {
+    size_t o = 0;
+    for (size_t i = 0; src[i] && o + 1 < n;) {
+        if (src[i] == '/') {
+            while (src[i + 1] == '/') i++;
+            if (src[i + 1] == '.' && (src[i + 2] == '/' || src[i + 2] == 0)) {
+                i += 2;
+                if (src[i] == 0 && o == 0) dst[o++] = '/';
+                continue;
+            }
+        }
+        dst[o++] = src[i++];
+    }
+    dst[o] = 0;
+}
+
+static int fd_still_points_to(int fd, const char *path0) {
+    char link[64], cur[8192], path[8192];
+    lexnorm(path0, path, sizeof(path));
     snprintf(link, sizeof(link), "/proc/self/fd/%d", fd);
     ssize_t n = syscall(SYS_readlink, link, cur, sizeof(cur) - 1);
     if (n < 0) return 1; /* cannot tell: keep the mapping */
@@ -507,6 +525,10 @@ static int fd_still_points_to(int fd, const char *path) {
     long s_;                                                                                   \
     int ka_;                                                                                   \
     int inj_ = gate(cls, fnname, fp_, &s_, &ka_);                                              \
+    /* copy_file_range / sendfile report "not possible for this pair of files" (EPERM, EINVAL, EXDEV, \
+     * ENOSYS, EOPNOTSUPP) only before any byte was copied - std asserts exactly that -, so in the \
+     * middle of a copy such an injected errno becomes EIO */                                      \
+    if (inj_ && !strcmp(fnname, "copy") && (inj_ == EPERM || inj_ == EINVAL || inj_ == EXDEV || inj_ == ENOSYS || inj_ == EOPNOTSUPP)) inj_ = EIO; \
     if (inj_) {                                                                                \
         logcall(s_, cls, fnname, fp_, NULL, -1, inj_, "INJECTED");                             \
         errno = inj_;                                                                          \
